@@ -103,6 +103,18 @@ def concrete(abstract: str) -> str:
 SCALAR_KIND = {"bool": "bool", "int": "int", "float": "float", "complex": "complex", "np.bool_": "bool", "np.number": "number"}
 
 
+# user-defined categories (built by the check from these bodies): name -> (dtypes entries
+# ['re:<pattern>' = compiled pattern], kinds kept (None = all), kinds that are don't-care because
+# only one precision of the kind is listed)
+USER_CATS = {
+    "user:re_float": (["re:float.*"], ["float"], []),
+    "user:re_intcomplex": (["re:int.*", "re:complex\\d+"], ["int", "complex"], []),
+    "user:mix": (["int8", "re:float.*"], ["float"], ["int"]),
+    "user:re_all": (["re:.*"], None, []),
+    "user:str_kinds": (["float16", "float32", "float64", "bool"], ["float", "bool"], []),
+}
+
+
 def scalar_rule(cat: str, axes, scalar: str) -> str:
     """'keep' | 'drop' | 'dc' for `cat[scalar_type, dims]`.
 
@@ -112,6 +124,14 @@ def scalar_rule(cat: str, axes, scalar: str) -> str:
     Shaped / Num (the statement speaks about the Python scalar types only)."""
     if any(ax[0] not in ("anonvar", "var") for ax in axes):
         return "drop"
+    if cat in USER_CATS:
+        keep, dc = USER_CATS[cat][1], USER_CATS[cat][2]
+        k = SCALAR_KIND[scalar]
+        if k == "number":
+            return "keep" if keep is None else "dc"
+        if keep is None or k in keep:
+            return "keep"
+        return "dc" if k in dc else "drop"
     if cat in PRECISION:
         return "dc"
     kinds = CAT_KINDS[cat]
